@@ -86,6 +86,7 @@ package stream
 //@   loop 1 invariant[on-path] forall(i, me + 1, xlen, me <= xp[i] && xp[i] < i && follows(xn[xp[i]], xo[xp[i]], xn[i]))
 //@   loop 1 invariant[followed] forall(k, 0, idx1, nd(node).edges[k].node != nil && nd(node).edges[k].condition == procIO.Name ==> me < cidx[k] && cidx[k] < xlen && xp[cidx[k]] == me && xn[cidx[k]] == nd(node).edges[k].node)
 //@   loop 1 invariant[latest-child] me <= hi && hi < xlen && forall(k, 0, idx1, nd(node).edges[k].node != nil && nd(node).edges[k].condition == procIO.Name ==> cidx[k] <= hi)
+//@   loop 1 hint[new-child] matchE(nd(node), idx1 - 1, procIO.Name) ==> me < cidx[idx1 - 1] && cidx[idx1 - 1] < xlen && cidx[idx1 - 1] == hi && xp[cidx[idx1 - 1]] == me && xn[cidx[idx1 - 1]] == nd(node).edges[idx1 - 1].node
 //@   loop 1 hint[new-child-is-last] matchE(nd(node), idx1 - 1, procIO.Name) ==> forall(k2, 0, idx1 - 1, matchE(nd(node), k2, procIO.Name) ==> cidx[k2] < cidx[idx1 - 1])
 //@   loop 1 invariant[in-order] forall(k, 0, idx1, forall(k2, 0, k, nd(node).edges[k].node != nil && nd(node).edges[k].condition == procIO.Name && nd(node).edges[k2].node != nil && nd(node).edges[k2].condition == procIO.Name ==> cidx[k2] < cidx[k]))
 //@   ensures[once-first] xlen > old(xlen) && xn[old(xlen)] == nd(node) && xp[old(xlen)] == old(xpar)
